@@ -106,6 +106,9 @@ Proofs/ShutdownProofs.vos Proofs/ShutdownProofs.vok Proofs/ShutdownProofs.requir
 Proofs/LocksetProofs.vo Proofs/LocksetProofs.glob Proofs/LocksetProofs.v.beautified Proofs/LocksetProofs.required_vo: Proofs/LocksetProofs.v Model/Lockset.vo
 Proofs/LocksetProofs.vio: Proofs/LocksetProofs.v Model/Lockset.vio
 Proofs/LocksetProofs.vos Proofs/LocksetProofs.vok Proofs/LocksetProofs.required_vos: Proofs/LocksetProofs.v Model/Lockset.vos
+Proofs/ConcProofs.vo Proofs/ConcProofs.glob Proofs/ConcProofs.v.beautified Proofs/ConcProofs.required_vo: Proofs/ConcProofs.v Base/Prelude.vo Model/Conc.vo
+Proofs/ConcProofs.vio: Proofs/ConcProofs.v Base/Prelude.vio Model/Conc.vio
+Proofs/ConcProofs.vos Proofs/ConcProofs.vok Proofs/ConcProofs.required_vos: Proofs/ConcProofs.v Base/Prelude.vos Model/Conc.vos
 Cases/LimiterCase.vo Cases/LimiterCase.glob Cases/LimiterCase.v.beautified Cases/LimiterCase.required_vo: Cases/LimiterCase.v Base/Prelude.vo Model/Limiter.vo
 Cases/LimiterCase.vio: Cases/LimiterCase.v Base/Prelude.vio Model/Limiter.vio
 Cases/LimiterCase.vos Cases/LimiterCase.vok Cases/LimiterCase.required_vos: Cases/LimiterCase.v Base/Prelude.vos Model/Limiter.vos
@@ -145,9 +148,9 @@ Cases/SchedCase.vos Cases/SchedCase.vok Cases/SchedCase.required_vos: Cases/Sche
 Props/C09.vo Props/C09.glob Props/C09.v.beautified Props/C09.required_vo: Props/C09.v Base/Prelude.vo Model/Limiter.vo Proofs/LimiterProofs.vo
 Props/C09.vio: Props/C09.v Base/Prelude.vio Model/Limiter.vio Proofs/LimiterProofs.vio
 Props/C09.vos Props/C09.vok Props/C09.required_vos: Props/C09.v Base/Prelude.vos Model/Limiter.vos Proofs/LimiterProofs.vos
-Props/C07.vo Props/C07.glob Props/C07.v.beautified Props/C07.required_vo: Props/C07.v Base/Prelude.vo Model/Breaker.vo Proofs/BreakerProofs.vo
-Props/C07.vio: Props/C07.v Base/Prelude.vio Model/Breaker.vio Proofs/BreakerProofs.vio
-Props/C07.vos Props/C07.vok Props/C07.required_vos: Props/C07.v Base/Prelude.vos Model/Breaker.vos Proofs/BreakerProofs.vos
+Props/C07.vo Props/C07.glob Props/C07.v.beautified Props/C07.required_vo: Props/C07.v Base/Prelude.vo Model/Breaker.vo Proofs/BreakerProofs.vo Model/Conc.vo Proofs/ConcProofs.vo
+Props/C07.vio: Props/C07.v Base/Prelude.vio Model/Breaker.vio Proofs/BreakerProofs.vio Model/Conc.vio Proofs/ConcProofs.vio
+Props/C07.vos Props/C07.vok Props/C07.required_vos: Props/C07.v Base/Prelude.vos Model/Breaker.vos Proofs/BreakerProofs.vos Model/Conc.vos Proofs/ConcProofs.vos
 Props/C08.vo Props/C08.glob Props/C08.v.beautified Props/C08.required_vo: Props/C08.v Base/Prelude.vo Model/Breaker.vo Proofs/BreakerProofs.vo
 Props/C08.vio: Props/C08.v Base/Prelude.vio Model/Breaker.vio Proofs/BreakerProofs.vio
 Props/C08.vos Props/C08.vok Props/C08.required_vos: Props/C08.v Base/Prelude.vos Model/Breaker.vos Proofs/BreakerProofs.vos
@@ -160,15 +163,15 @@ Props/C05.vos Props/C05.vok Props/C05.required_vos: Props/C05.v Base/Prelude.vos
 Props/C13.vo Props/C13.glob Props/C13.v.beautified Props/C13.required_vo: Props/C13.v Base/Prelude.vo Model/Strategy.vo Model/LB.vo Proofs/LBProofs.vo
 Props/C13.vio: Props/C13.v Base/Prelude.vio Model/Strategy.vio Model/LB.vio Proofs/LBProofs.vio
 Props/C13.vos Props/C13.vok Props/C13.required_vos: Props/C13.v Base/Prelude.vos Model/Strategy.vos Model/LB.vos Proofs/LBProofs.vos
-Props/C11.vo Props/C11.glob Props/C11.v.beautified Props/C11.required_vo: Props/C11.v Base/Prelude.vo Model/Strategy.vo Model/LB.vo Proofs/LBProofs.vo
-Props/C11.vio: Props/C11.v Base/Prelude.vio Model/Strategy.vio Model/LB.vio Proofs/LBProofs.vio
-Props/C11.vos Props/C11.vok Props/C11.required_vos: Props/C11.v Base/Prelude.vos Model/Strategy.vos Model/LB.vos Proofs/LBProofs.vos
+Props/C11.vo Props/C11.glob Props/C11.v.beautified Props/C11.required_vo: Props/C11.v Base/Prelude.vo Model/Strategy.vo Model/LB.vo Proofs/LBProofs.vo Model/Conc.vo Proofs/ConcProofs.vo
+Props/C11.vio: Props/C11.v Base/Prelude.vio Model/Strategy.vio Model/LB.vio Proofs/LBProofs.vio Model/Conc.vio Proofs/ConcProofs.vio
+Props/C11.vos Props/C11.vok Props/C11.required_vos: Props/C11.v Base/Prelude.vos Model/Strategy.vos Model/LB.vos Proofs/LBProofs.vos Model/Conc.vos Proofs/ConcProofs.vos
 Props/C02.vo Props/C02.glob Props/C02.v.beautified Props/C02.required_vo: Props/C02.v Base/Prelude.vo Base/Wrap.vo Model/Hash.vo Model/Strategy.vo Model/LB.vo Proofs/StrategyProofs.vo Proofs/LBProofs.vo
 Props/C02.vio: Props/C02.v Base/Prelude.vio Base/Wrap.vio Model/Hash.vio Model/Strategy.vio Model/LB.vio Proofs/StrategyProofs.vio Proofs/LBProofs.vio
 Props/C02.vos Props/C02.vok Props/C02.required_vos: Props/C02.v Base/Prelude.vos Base/Wrap.vos Model/Hash.vos Model/Strategy.vos Model/LB.vos Proofs/StrategyProofs.vos Proofs/LBProofs.vos
-Props/C04.vo Props/C04.glob Props/C04.v.beautified Props/C04.required_vo: Props/C04.v Base/Prelude.vo Model/Strategy.vo Model/LB.vo Proofs/LBProofs.vo Model/Shutdown.vo Proofs/ShutdownProofs.vo
-Props/C04.vio: Props/C04.v Base/Prelude.vio Model/Strategy.vio Model/LB.vio Proofs/LBProofs.vio Model/Shutdown.vio Proofs/ShutdownProofs.vio
-Props/C04.vos Props/C04.vok Props/C04.required_vos: Props/C04.v Base/Prelude.vos Model/Strategy.vos Model/LB.vos Proofs/LBProofs.vos Model/Shutdown.vos Proofs/ShutdownProofs.vos
+Props/C04.vo Props/C04.glob Props/C04.v.beautified Props/C04.required_vo: Props/C04.v Base/Prelude.vo Model/Strategy.vo Model/LB.vo Proofs/LBProofs.vo Model/Shutdown.vo Proofs/ShutdownProofs.vo Model/Conc.vo Proofs/ConcProofs.vo
+Props/C04.vio: Props/C04.v Base/Prelude.vio Model/Strategy.vio Model/LB.vio Proofs/LBProofs.vio Model/Shutdown.vio Proofs/ShutdownProofs.vio Model/Conc.vio Proofs/ConcProofs.vio
+Props/C04.vos Props/C04.vok Props/C04.required_vos: Props/C04.v Base/Prelude.vos Model/Strategy.vos Model/LB.vos Proofs/LBProofs.vos Model/Shutdown.vos Proofs/ShutdownProofs.vos Model/Conc.vos Proofs/ConcProofs.vos
 Props/C03.vo Props/C03.glob Props/C03.v.beautified Props/C03.required_vo: Props/C03.v Base/Prelude.vo Model/Strategy.vo Model/LB.vo Proofs/LBProofs.vo
 Props/C03.vio: Props/C03.v Base/Prelude.vio Model/Strategy.vio Model/LB.vio Proofs/LBProofs.vio
 Props/C03.vos Props/C03.vok Props/C03.required_vos: Props/C03.v Base/Prelude.vos Model/Strategy.vos Model/LB.vos Proofs/LBProofs.vos
